@@ -30,7 +30,9 @@ var c04Codes = func() []c04Code {
 			out = append(out, c04Code{i, ""})
 		}
 	}
-	return append(out, c04Code{17, ""}, c04Code{18, ""}, c04Code{99, ""}, c04Code{2147483647, ""}, c04Code{4294967295, ""})
+	return append(out, c04Code{17, ""}, c04Code{18, ""}, c04Code{99, ""}, c04Code{2147483647, ""}, c04Code{4294967295, ""},
+		// an error whose code is not a code at all: a name nobody knows, and (Connect only) no code member
+		c04Code{99, "bogus_code"}, c04Code{99, wire.OmitCode})
 }()
 
 var c04Messages = []string{"plain message", "", "100% sure", "a%zzb%", "line1\r\nline2\ttab", `quote " and \ backslash`, "fiancée ≠ 😀", "1+1=2 & a=b; c", "all ASCII punctuation !\"#$%&'()*+,-./:;<=>?@[\\]^_`{|}~ and é together", strings.TrimSpace(strings.Repeat("long ", 60))}
@@ -88,6 +90,10 @@ func init() {
 		code := c04Codes[c.Choose("code", len(c04Codes))]
 		msg := c04Messages[c.Choose("message", len(c04Messages))]
 		det := c04Details[c.Choose("details", len(c04Details))]
+		if code.str == wire.OmitCode && tp != vanguard.ProtocolConnect {
+			c.Skip() // only a Connect error object can lack its code
+			return
+		}
 		pos := 0
 		if b.Client.shape == "server" || b.Client.shape == "bidi" {
 			pos = c.Choose("position", 3)
